@@ -71,29 +71,32 @@ Proof.
   - destruct payload as [|x t]; [congruence|]. unfold dealer_prepare. apply one_message_norm. discriminate.
 Qed.
 
+Lemma norm_flags_cons2 f g l : norm_flags (f :: g :: l) = with_more f :: norm_flags (g :: l).
+Proof. reflexivity. Qed.
+Lemma fempty_with_more f : fempty (with_more f) = fempty f.
+Proof. reflexivity. Qed.
 Lemma router_wire_auto s idm payload :
   s = SDefault \/ s = SDealer ->
-  clear_last (strat_prepare s false idm payload) =
-  with_more idm :: match payload with [] => [delim false] | _ => delim true :: clear_last payload end.
+  router_wire s false idm payload =
+  with_more idm :: match payload with [] => [delim false] | _ => delim true :: norm_flags payload end.
 Proof.
   intros [-> | ->]; destruct payload as [|x t]; reflexivity.
 Qed.
 Lemma router_wire_req manual idm payload :
-  clear_last (strat_prepare SReq manual idm payload) =
-  match payload with [] => [delim false] | _ => delim true :: clear_last payload end.
+  router_wire SReq manual idm payload =
+  match payload with [] => [delim false] | _ => delim true :: norm_flags payload end.
 Proof. destruct payload as [|x t]; reflexivity. Qed.
+(* whatever flags the application left on the frames, one send_multipart call is one message *)
+Lemma router_wire_one_message s manual idm payload :
+  strat_prepare s manual idm payload <> [] -> one_message (router_wire s manual idm payload).
+Proof. apply one_message_norm. Qed.
 Lemma router_wire_auto_one_message s idm payload :
-  s = SDefault \/ s = SDealer -> more_ok payload ->
-  one_message (clear_last (strat_prepare s false idm payload)).
-Proof.
-  intros S M. rewrite router_wire_auto by exact S. destruct payload as [|x t].
-  - reflexivity.
-  - rewrite more_ok_clear by exact M.
-    replace (with_more idm :: delim true :: x :: t) with (norm_flags (idm :: delim true :: x :: t)).
-    + apply one_message_norm. discriminate.
-    + change (norm_flags (idm :: delim true :: x :: t)) with (with_more idm :: with_more (delim true) :: norm_flags (x :: t)).
-      rewrite M. reflexivity.
-Qed.
+  s = SDefault \/ s = SDealer -> one_message (router_wire s false idm payload).
+Proof. intros [-> | ->]; apply one_message_norm; destruct payload; discriminate. Qed.
+Lemma router_wire_req_one_message manual idm payload : one_message (router_wire SReq manual idm payload).
+Proof. apply one_message_norm. discriminate. Qed.
+Lemma router_wire_flags s manual idm payload : more_ok (router_wire s manual idm payload).
+Proof. apply more_ok_norm. Qed.
 
 (* ------------------------------------------------------------------ round trips, AUTO_DELIMITER default *)
 (* DEALER -> ROUTER *)
@@ -114,7 +117,7 @@ Proof. intros P. destruct pt as [[| | |]|]; try reflexivity. congruence. Qed.
 (* ROUTER -> DEALER, send_multipart *)
 Lemma rt_router_dealer s idm payload :
   s = SDefault \/ s = SDealer -> snd idm <> [] ->
-  dealer_process_incoming false (clear_last (strat_prepare s false idm payload)) = clear_last payload.
+  dealer_process_incoming false (router_wire s false idm payload) = norm_flags payload.
 Proof.
   intros S I. rewrite router_wire_auto by exact S. unfold dealer_process_incoming.
   assert (fempty (with_more idm) = false) as ->. { unfold fempty, with_more. simpl. destruct (snd idm); congruence. }
@@ -128,14 +131,14 @@ Proof. intros P. destruct pt as [[| | |]|]; try reflexivity. congruence. Qed.
 
 (* ROUTER -> REQ, send_multipart with the REQ strategy *)
 Lemma rt_router_req manual idm payload :
-  req_recv_multipart (clear_last (strat_prepare SReq manual idm payload)) = clear_last payload.
+  req_recv_multipart (router_wire SReq manual idm payload) = norm_flags payload.
 Proof. rewrite router_wire_req. destruct payload as [|x t]; reflexivity. Qed.
 Lemma rt_router_req_recv manual idm x t :
-  req_recv (clear_last (strat_prepare SReq manual idm (x :: t))) = hd (false, []) (clear_last (x :: t)).
+  req_recv (router_wire SReq manual idm (x :: t)) = hd (false, []) (norm_flags (x :: t)).
 Proof.
   rewrite router_wire_req. unfold req_recv.
-  change (req_process_incoming (delim true :: clear_last (x :: t))) with (clear_last (x :: t)).
-  destruct (clear_last (x :: t)); reflexivity.
+  change (req_process_incoming (delim true :: norm_flags (x :: t))) with (norm_flags (x :: t)).
+  destruct (norm_flags (x :: t)); reflexivity.
 Qed.
 
 (* REQ -> REP -> REQ *)
@@ -271,35 +274,34 @@ Qed.
 (* ROUTER manual with the DEALER strategy -> DEALER auto: the identity is NOT put on the wire, and the
    DEALER discards a non-empty first frame "assumed identity" (plus an empty frame after it). *)
 Lemma mixed_router_manual_dealer_auto idm payload :
-  dealer_process_incoming false (clear_last (strat_prepare SDealer true idm payload)) =
-  match clear_last payload with
+  dealer_process_incoming false (router_wire SDealer true idm payload) =
+  match norm_flags payload with
   | [] => []
   | f0 :: rest => if fempty f0 then rest
                   else match rest with [] => [] | f1 :: rest' => if fempty f1 then rest' else rest end
   end.
 Proof.
-  simpl strat_prepare. unfold dealer_process_incoming. destruct (clear_last payload) as [|f0 rest]; [reflexivity|].
+  unfold router_wire. simpl strat_prepare. unfold dealer_process_incoming. destruct (norm_flags payload) as [|f0 rest]; [reflexivity|].
   destruct (fempty f0); [reflexivity|]. destruct rest as [|f1 rest']; [reflexivity|]. destruct (fempty f1); reflexivity.
 Qed.
 (* intended manual usage: the application supplies the delimiter itself *)
 Lemma manual_router_app_delimiter idm body :
-  dealer_process_incoming false (clear_last (strat_prepare SDealer true idm (delim true :: body))) =
-  match body with [] => [] | _ => clear_last body end.
+  dealer_process_incoming false (router_wire SDealer true idm (delim true :: body)) = norm_flags body.
 Proof. rewrite mixed_router_manual_dealer_auto. destruct body; reflexivity. Qed.
 (* ROUTER manual with the Default strategy (peer type unknown, e.g. inproc) -> DEALER auto *)
 Lemma mixed_router_manual_default_dealer_auto idm payload :
   snd idm <> [] ->
-  dealer_process_incoming false (clear_last (strat_prepare SDefault true idm payload)) =
-  match clear_last payload with
+  dealer_process_incoming false (router_wire SDefault true idm payload) =
+  match norm_flags payload with
   | [] => []
   | f1 :: rest' => if fempty f1 then rest' else f1 :: rest'
   end.
 Proof.
-  intros I. unfold strat_prepare, latch_encode. destruct payload as [|x t].
+  intros I. unfold router_wire, strat_prepare, latch_encode. destruct payload as [|x t].
   - simpl. unfold fempty, no_more. simpl. destruct (snd idm); [congruence|reflexivity].
-  - cbn [nonnil]. rewrite clear_last_cons by discriminate. unfold dealer_process_incoming.
-    assert (fempty (with_more idm) = false) as ->. { unfold fempty, with_more. simpl. destruct (snd idm); congruence. }
-    simpl negb. cbv iota. destruct (clear_last (x :: t)) as [|f1 r]; [reflexivity|]. destruct (fempty f1); reflexivity.
+  - cbn [nonnil]. rewrite norm_flags_cons by discriminate. unfold dealer_process_incoming.
+    assert (fempty (with_more (with_more idm)) = false) as ->. { unfold fempty, with_more. simpl. destruct (snd idm); congruence. }
+    simpl negb. cbv iota. destruct (norm_flags (x :: t)) as [|f1 r]; [reflexivity|]. destruct (fempty f1); reflexivity.
 Qed.
 
 (* both ends manual: raw pass-through *)
@@ -310,17 +312,16 @@ Lemma raw_dealer_router_datas pt id payload :
   datas (router_recv true pt id (dealer_prepare true payload)) = id :: datas payload.
 Proof. rewrite raw_dealer_router. unfold router_transform. rewrite datas_clear. simpl. rewrite datas_norm. reflexivity. Qed.
 Lemma raw_router_dealer_strategy idm payload :
-  dealer_process_incoming true (clear_last (strat_prepare SDealer true idm payload)) = clear_last payload.
-Proof. simpl strat_prepare. destruct (clear_last payload); reflexivity. Qed.
+  dealer_process_incoming true (router_wire SDealer true idm payload) = norm_flags payload.
+Proof. unfold router_wire. simpl strat_prepare. destruct (norm_flags payload); reflexivity. Qed.
 Lemma raw_router_default_strategy idm x t :
-  dealer_process_incoming true (clear_last (strat_prepare SDefault true idm (x :: t))) = with_more idm :: clear_last (x :: t).
+  dealer_process_incoming true (router_wire SDefault true idm (x :: t)) = with_more idm :: norm_flags (x :: t).
 Proof. reflexivity. Qed.
 
 (* Default strategy towards a REQ peer (what the part-wise send also produces): REQ sees the envelope *)
 Lemma default_strategy_to_req idm payload :
   snd idm <> [] ->
-  req_recv_multipart (clear_last (strat_prepare SDefault false idm payload)) =
-  clear_last (strat_prepare SDefault false idm payload).
+  req_recv_multipart (router_wire SDefault false idm payload) = router_wire SDefault false idm payload.
 Proof.
   intros I. rewrite router_wire_auto by (left; reflexivity). unfold req_recv_multipart, req_process_incoming.
   assert (fempty (with_more idm) = false) as ->. { unfold fempty, with_more. simpl. destruct (snd idm); congruence. }
@@ -346,7 +347,7 @@ Proof. intros I F. unfold router_send_multipart. destruct (snd idm) eqn:E; [cong
 Lemma send_known mandatory manual conn hint m idm payload u s :
   snd idm <> [] -> fget (snd idm) m = Some (u, s) -> conn u = COk ->
   router_send_multipart mandatory manual conn hint m (idm :: payload) =
-  (m, SSent u (clear_last (strat_prepare s manual idm payload))).
+  (m, SSent u (router_wire s manual idm payload)).
 Proof. intros I F C. unfold router_send_multipart. destruct (snd idm) eqn:E; [congruence|]. rewrite F, C. reflexivity. Qed.
 
 (* complete decision table of send_multipart *)
@@ -366,7 +367,7 @@ Lemma send_multipart_decision mandatory manual conn hint m frames :
             ((conn u = CGone /\ m' = remove_peer_by_identity hint (snd idm) m) \/ (conn u = CClosed /\ m' = m))))
   | SSent u w =>
       m' = m /\ exists idm payload s, frames = idm :: payload /\ snd idm <> [] /\
-        fget (snd idm) m = Some (u, s) /\ conn u = COk /\ w = clear_last (strat_prepare s manual idm payload)
+        fget (snd idm) m = Some (u, s) /\ conn u = COk /\ w = router_wire s manual idm payload
   end.
 Proof.
   unfold router_send_multipart. destruct frames as [|idm payload]; [simpl; auto|].
@@ -386,7 +387,7 @@ Lemma send_reaches_true_peer uri_of placeholder h p i st mandatory manual conn h
   distinct_hist placeholder h = true ->
   sget p (spec_run placeholder h) = Some (i, st) -> i <> [] -> conn (uri_of p) = COk ->
   router_send_multipart mandatory manual conn hint (run uri_of placeholder h) ((b, i) :: payload) =
-  (run uri_of placeholder h, SSent (uri_of p) (clear_last (strat_prepare st manual (b, i) payload))).
+  (run uri_of placeholder h, SSent (uri_of p) (router_wire st manual (b, i) payload)).
 Proof.
   intros D S I C. destruct (lookup_true_peer_holds uri_of placeholder h D) as (TP & _).
   destruct (TP _ _ _ S) as [_ F]. apply send_known; assumption.
@@ -441,5 +442,5 @@ Qed.
 (* mixed mode: ROUTER manual + DEALER strategy -> DEALER auto loses a non-empty first frame *)
 Lemma mixed_router_manual_dealer_auto_lost :
   exists idm payload,
-    dealer_process_incoming false (clear_last (strat_prepare SDealer true idm payload)) <> clear_last payload.
+    dealer_process_incoming false (router_wire SDealer true idm payload) <> norm_flags payload.
 Proof. exists (true, [65]), [(true, [97]); (false, [98])]. vm_compute. discriminate. Qed.
